@@ -101,6 +101,15 @@ def campaign(c):
                 else: parts.append(r.choice(['(', ')', ';', ',', ' ', '  ', '\t', '=', '/']))
             lines.append((r.choice(['', ' ', '']) ).join(parts))
         check(c, lines + [';'], 'rand')
+    # the reserved words in every mix of upper and lower case (only the exact lower-case spelling is a keyword, everything else
+    # is an identifier), with the characters that simple or full case folding maps onto ASCII letters (long s, Kelvin sign,
+    # dotless / dotted I), alone and glued to their usual neighbours
+    for w in ('import', 'let', 'true', 'false'):
+        vs = set(''.join(ch.upper() if m >> k & 1 else ch for k, ch in enumerate(w)) for m in range(1 << len(w)))
+        vs |= {w.replace('s', 'ſ'), w.replace('t', 'ᵀ'), w.replace('i', 'ı'), w.replace('i', 'İ'), w.upper().replace('I', 'İ'), w.replace('l', 'ℓ'), w.replace('e', 'ｅ')}
+        for v in sorted(vs):
+            for t in (v, v + ';', 'x.' + v, v + '(1)', 'let ' + v + ' = ' + v + ';', '5' + v, v + '5', v + '_', '_' + v, v + ' ' + v, 'm::' + v, v + ':1', '"a"' + v):
+                check(c, [t, ';'], 'keyword-case')
     # dotted quads: every 1-3 digit octet spelling (and some longer ones) in each of the four positions
     octs = ['%d' % i for i in range(0, 300)] + ['0%d' % i for i in range(0, 100, 7)] + ['00%d' % i for i in range(10)] + ['1000', '2550', '0255', '']
     if c.quick: octs = octs[::3] + ['199', '200', '201', '249', '250', '255', '256', '25', '26', '2']
